@@ -113,6 +113,20 @@ def install(events, spec):
         snapshot(chromosome, "export-entry")
         return orig_exp(chromosome, **kw)
 
+    import pynguin.assertion.assertiongenerator as ag
+
+    orig_add = ag.AssertionGenerator._add_assertions
+
+    def add_assertions(self, test_cases):
+        # observation + filtering executions (not the mutant executions of MUTATION_ANALYSIS): a timed-out filtering execution
+        # keeps all unverified assertions, the checks need to know
+        before = genfile_breaks.LOG_COUNTS["timeouts"]
+        try:
+            return orig_add(self, test_cases)
+        finally:
+            genfile_breaks.LOG_COUNTS["timeouts_during_assertion_generation"] += genfile_breaks.LOG_COUNTS["timeouts"] - before
+
+    ag.AssertionGenerator._add_assertions = add_assertions
     gen._generate_assertions = generate_assertions
     gen._minimize_assertions = minimize_assertions
     gen._minimize = minimize
